@@ -28,6 +28,20 @@ def exact_types(I, table):
         return [(st, any(issubclass(T, c) for c in classes))]
 
     I.specs["isinstance_obj"] = isinstance_obj
+    prev_type = I.specs.get(("fn", id(type)))
+
+    def builtin_type(I_, st, args, kwargs, node):
+        if len(args) == 1 and isinstance(args[0], Sym) and str(args[0].t) in table:
+            return [(st, table[str(args[0].t)])]
+        if prev_type is not None:
+            return prev_type(I_, st, args, kwargs, node)
+        from pyvc import models
+        r = models.instantiate(I_, st, type, args, kwargs, node)
+        if r is None:
+            raise Unsupported("type(...)", node)
+        return r
+
+    I.specs[("fn", id(type))] = builtin_type
 
 
 # ---------------------------------------------------------------- zero-argument super()
@@ -36,16 +50,26 @@ class _SuperProxy:
     next definition along the MRO of the receiver's class, as a Closure over the real source bound to the receiver."""
 
     def __init__(self, I, owner, recv_cls, self_ref):
-        self.__dict__["_d"] = (I, owner, recv_cls, self_ref)
+        object.__setattr__(self, "_d", (I, owner, recv_cls, self_ref))
 
-    def __getattr__(self, name):
-        I, owner, recv_cls, self_ref = self.__dict__["_d"]
+    def __getattribute__(self, name):
+        if name in ("_d", "__class__", "__dict__"):
+            return object.__getattribute__(self, name)
+        I, owner, recv_cls, self_ref = object.__getattribute__(self, "_d")
         mro = recv_cls.__mro__
         for k in mro[mro.index(owner) + 1:]:
             if name in k.__dict__:
                 fn = k.__dict__[name]
                 if not inspect.isfunction(fn) or not I.is_repo(fn):
-                    raise Unsupported(f"super().{name} resolves to a non-repo function {fn!r}")
+                    # a library method (string.Formatter.__init__ ...): abstract callee, recorded as `super().<name>`
+                    from pyvc import abstract as A
+
+                    def stub(*a, **k):
+                        raise RuntimeError("abstract")
+
+                    I.__dict__.setdefault("_super_stubs", []).append(stub)
+                    I.specs[("fn", id(stub))] = A.abstract_fn(f"super().{name}", returns=None)
+                    return stub
                 clo = I.closure_of_function(fn)
                 clo.self_val = self_ref
                 return clo
